@@ -284,6 +284,54 @@ fn run_type<T: Subject + Encode<()>>(a: &Args, rep: &mut Report, n: u64) {
     mon::tick();
 }
 
+/// One `Encoder` value that keeps being used after a write was rejected: every later one-byte item
+/// must be accepted exactly while there is room, and every rejection must be a write error.
+fn encoder_reuse(rep: &mut Report, cap: usize, big: usize) {
+    rep.eval();
+    let mut c = Canary::new(cap, 8);
+    let r = mon::guarded(|| {
+        let mut e = Encoder::new(Cursor::new(c.sink()));
+        let payload = vec![0x55u8; big];
+        let first = e.bytes(&payload).map(|_| ()).map_err(|x| x.is_write());
+        let head = 1 + if big < 24 { 0 } else if big < 256 { 1 } else { 2 };
+        let fits = head + big <= cap;
+        if first.is_ok() != fits {
+            return Err(format!("bytes({}) into capacity {}: {:?}", big, cap, first));
+        }
+        if let Err(false) = first {
+            return Err("the rejected write is not reported as a write error".to_string());
+        }
+        for j in 0..cap + 3 {
+            let before = e.writer().position();
+            let r = e.u8((j % 24) as u8).map(|_| ()).map_err(|x| x.is_write());
+            match (r, before < cap) {
+                (Ok(()), true) => {
+                    if e.writer().position() != before + 1 {
+                        return Err(format!("position {} -> {} after a one-byte item", before, e.writer().position()));
+                    }
+                }
+                (Err(true), false) => {}
+                (Ok(()), false) => return Err(format!("a one-byte item was accepted at position {} of capacity {}", before, cap)),
+                (Err(w), true) => return Err(format!("after an earlier rejected write, a one-byte item is refused at position {} of capacity {} (write error: {})", before, cap, w)),
+                (Err(false), false) => return Err("a full sink is reported as a non-write error".to_string()),
+            }
+        }
+        Ok(())
+    });
+    let rp = vec!["c13".into(), "--replay".into(), "reuse".into(), cap.to_string(), big.to_string()];
+    match r {
+        Err(p) => fail(rep, "Encoder<Cursor<&mut [u8]>>", "reuse-panic", p.message, &rp),
+        Ok(Err(e)) => fail(rep, "Encoder<Cursor<&mut [u8]>>", "reuse-after-rejected-write", e, &rp),
+        Ok(Ok(())) => {
+            if !c.intact() {
+                fail(rep, "Encoder<Cursor<&mut [u8]>>", "overrun", format!("capacity {}", cap), &rp)
+            } else {
+                rep.count("encoder reused after a rejected write")
+            }
+        }
+    }
+}
+
 /// Raw `write_all` sequences on every cursor kind, exhaustive for small capacities.
 fn raw_sequences(a: &Args, rep: &mut Report) {
     let mut n = 0u64;
@@ -426,10 +474,25 @@ pub fn run(a: &Args, rep: &mut Report) {
         check_value("MapIter(inexact)", &minicbor::encode::MapIter::new(v.iter().filter(|_| true).map(|x| (*x, x % 3 == 0))), &show, rep, &mut rng, &rp);
     }
     raw_sequences(a, rep);
+    {
+        let mut k = 0u64;
+        for cap in 0..=40usize {
+            for big in [0usize, 1, 5, 23, 24, 30, 255, 256, 300] {
+                k += 1;
+                if a.mine(k) {
+                    encoder_reuse(rep, cap, big);
+                }
+            }
+        }
+        rep.enumerated(k / a.nshards.max(1));
+    }
     rep.sample(J::obj().with("value", J::s("(u16, String) = (1000, \"hé\")")).with("capacities", J::s("0..=len+1")).with("sinks", J::s("&mut [u8], Cursor<&mut [u8]>, Cursor<Box<[u8]>>, Writer<io::Cursor<&mut [u8]>>, Cursor<[u8; N]> for 10 N, &mut Vec, Writer<Vec>")));
 }
 
 pub fn replay(a: &Args, rep: &mut Report) {
+    if a.replay[0] == "reuse" {
+        return encoder_reuse(rep, a.replay[1].parse().unwrap(), a.replay[2].parse().unwrap());
+    }
     if a.replay[0] == "iter" {
         let i: u64 = a.replay[1].parse().unwrap();
         let mut rng = Rng::derive("c13/iter", a.seed, 0, i);
